@@ -9,7 +9,7 @@ WT = "/tmp/mm-wt"
 
 M = []
 SKIP = {"pop_front_inc_start_first"}  # a value-level error (reads the wrong slot) that no structural rule can see
-TIER = {"dbg_sub_mod_tightened": "thorough"}
+TIER = {"dbg_sub_mod_tightened": "thorough", "drain_read_assert_range_end": "thorough"}
 
 
 def mut(name, file, old, new, expect, features=None, count=1):
@@ -216,6 +216,24 @@ mut("remove_head_move_unguarded", L, """                // Move the values at th
 mut("over_range_size_end", D, """        buf.size = 0;""", """        buf.size = end;""", ["C04:REINT1", "C03:OWNER1", "C10:DRN1"])
 mut("from_keeps_first", L, """            ptr::copy_nonoverlapping(arr_ptr.add(M - size), elems_ptr, size);""", """            ptr::copy_nonoverlapping(arr_ptr, elems_ptr, size);""", ["C12:FROMARR1", "C03:OWNER1"])
 mut("from_drop_off_by_one", L, """            ptr::drop_in_place(&mut arr[..M - size]);""", """            ptr::drop_in_place(&mut arr[..(M - size).saturating_sub(1)]);""", ["C12:FROMARR1", "C03:OWNER1"])
+mut("remove_chain_skips_leftmost", L, """                // Move the leftmost value to the end of the array
+                ptr::copy(ptr, ptr.add(N - 1), 1);
+""", "", ["C03:OWNER1", "C04:REINT1"])
+mut("remove_chain_short", L, """                ptr::copy(ptr.add(index).add(1), ptr.add(index), back_index - index);""", """                ptr::copy(ptr.add(index).add(1), ptr.add(index), back_index - index - 1);""", ["C03:OWNER1"])
+mut("remove_reads_back", L, """        let item = unsafe { self.items[index].assume_init_read() };
+
+        // SAFETY: the pointers being moved""", """        let item = unsafe { self.items[back_index].assume_init_read() };
+
+        // SAFETY: the pointers being moved""", ["C03:OWNER1"])
+mut("drain_read_assert_range_end", D, """            index < self.iter.start || index >= self.iter.end,""", """            index < self.iter.start || index >= self.range.end,""", ["C11:DBGASSERT1"])
+mut("no_std_keyed_on_alloc", L, """#![cfg_attr(not(feature = "std"), no_std)]""", """#![cfg_attr(not(feature = "alloc"), no_std)]""", ["C17:NOSTD"])
+mut("eio_fill_buf_longer_slice", E, """impl<const N: usize> embedded_io::BufRead for CircularBuffer<N, u8> {
+    fn fill_buf(&mut self) -> Result<&[u8], Self::Error> {
+        let (front, back) = self.as_slices();
+        if !front.is_empty() {""", """impl<const N: usize> embedded_io::BufRead for CircularBuffer<N, u8> {
+    fn fill_buf(&mut self) -> Result<&[u8], Self::Error> {
+        let (front, back) = self.as_slices();
+        if front.len() >= back.len() {""", ["C16:TWIN"])
 mut("view_back_off_by_one", L, """            let (back, front) = self.items.split_at(start);
             (front, &back[..end])""", """            let (back, front) = self.items.split_at(start);
             (front, &back[..end + 1])""", ["C07:VIEW2", "C04:VIEW2"])
